@@ -2,10 +2,13 @@
 from __future__ import annotations
 
 import ast
+import io
 import itertools
 import json
 import random
 import re
+import tokenize
+import traceback
 from collections import Counter
 from pathlib import Path
 
@@ -21,11 +24,16 @@ BAD = "(\n"  # replacement text that can never parse on its own line
 # cases
 
 
-def make_source(nlines: int, ignored: tuple[int, ...]) -> tuple[str, list[int], list[tuple[int, int]]]:
-    """Distinct one-token lines; returns (source, line-start positions incl. EOF, ignored line ranges)."""
+def make_source(nlines: int, ignored: tuple[int, ...], strmark: tuple[int, ...] = ()
+                ) -> tuple[str, list[int], list[tuple[int, int]]]:
+    """Distinct one-token lines; returns (source, line-start positions incl. EOF, ignored line ranges).
+    Lines in `strmark` carry the marker inside a string literal (no comment token at all)."""
     lines = []
     for i in range(nlines):
-        lines.append(f"v{i}  # pyrefact: ignore\n" if i in ignored else f"v{i}\n")
+        if i in strmark:
+            lines.append(f"v{i} = '# pyrefact: ignore'\n")
+        else:
+            lines.append(f"v{i}  # pyrefact: ignore\n" if i in ignored else f"v{i}\n")
     pos, p = [], 0
     for ln in lines:
         pos.append(p)
@@ -41,6 +49,111 @@ def build_case(nlines, ignored, groups):
     src, pos, il = make_source(nlines, ignored)
     g2 = [[(pos[i], pos[j], text, tr) for (i, j, text, tr) in g] for g in groups]
     return {"source": src, "ilines": il, "groups": g2, "nlines": nlines, "ignored": list(ignored)}
+
+
+def comment_ignored_lines(source: str) -> list[tuple[int, int]]:
+    """The property's reading of "an ignored line": the character ranges of the physical lines on which a COMMENT
+    *token* carries the marker (independent of core.has_ignore_comment, which searches the raw line text)."""
+    starts, p = [], 0
+    for ln in source.split("\n"):
+        starts.append(p)
+        p += len(ln) + 1
+    res = []
+    try:
+        for tok in tokenize.generate_tokens(io.StringIO(source).readline):
+            if tok.type == tokenize.COMMENT and IGNORE_RE.search(tok.string):
+                a = starts[tok.start[0] - 1]
+                b = starts[tok.start[0]] if tok.start[0] < len(starts) else len(source)
+                res.append((a, min(b, len(source))))
+    except (tokenize.TokenError, SyntaxError, IndentationError):
+        return []
+    return res
+
+
+# ---- the application step: members that are whitespace-only changes, rewrites that join lines, insertions ----
+MEMBER_KINDS = ("tok", "line", "del", "ins", "trail", "wsline", "blank", "joinws", "joinsc")
+WS_KINDS = ("trail", "wsline", "blank", "joinws")
+
+
+def member(src: str, pos: list[int], i: int, kind: str, k: int):
+    """(start, end, new text) of a rewrite of kind `kind` on line i; k numbers the marker text."""
+    tok_end = pos[i] + len(f"v{i}")
+    line_end = pos[i + 1]
+    if kind == "tok":
+        return (pos[i], tok_end, f"m{k}")
+    if kind == "line":
+        return (pos[i], line_end, f"m{k}\n")
+    if kind == "del":
+        return (pos[i], line_end, "")
+    if kind == "ins":
+        return (pos[i], pos[i], f"m{k}\n")
+    if kind == "trail":                      # blanks appended to the token: whitespace-only
+        return (tok_end, tok_end, "  ")
+    if kind == "wsline":                     # the line again, with blanks before the line break: whitespace-only
+        return (pos[i], line_end, src[pos[i]:line_end - 1] + "   \n")
+    if kind == "blank":                      # an added blank line: whitespace-only
+        return (pos[i], pos[i], "\n")
+    if kind == "joinws":                     # the line break removed: joins two lines, "whitespace-only"
+        return (line_end - 1, line_end, "")
+    if kind == "joinsc":                     # the line break replaced by '; ': joins two lines
+        return (line_end - 1, line_end, "; ")
+    raise ValueError(kind)
+
+
+def veto_family(nlines: int, ignored_opts, strmark_opts=((),)):
+    """Every transaction of one or two members (every member kind x every line) on an nlines-line source,
+    x ignored line; plus the same with an independent one-member transaction of a second rule."""
+    for ig in ignored_opts:
+        for sm in strmark_opts:
+            src, pos, il = make_source(nlines, ig, sm)
+            menu = [(i, kd) for i in range(nlines) for kd in MEMBER_KINDS]
+            txs = [[m] for m in menu] + [list(p) for p in itertools.combinations(menu, 2)]
+            for tx in txs:
+                g = [member(src, pos, i, kd, k + 1) + (0,) for k, (i, kd) in enumerate(tx)]
+                c = {"source": src, "ilines": il, "groups": [g], "nlines": nlines, "ignored": list(ig),
+                     "family": "veto", "kinds": [f"{kd}@{i}" for (i, kd) in tx]}
+                if sm:
+                    c["strmark"] = list(sm)
+                yield c
+
+
+def random_veto_case(rnd: random.Random, max_lines=5):
+    nlines = rnd.randint(2, max_lines)
+    ig = tuple(sorted(rnd.sample(range(nlines), rnd.choice([0, 0, 1, 1, 2]) if nlines > 2 else 0)))
+    sm = tuple(i for i in range(nlines) if i not in ig and rnd.random() < 0.1)
+    src, pos, il = make_source(nlines, ig, sm)
+    ngroups = rnd.randint(1, 2)
+    groups, k, kinds = [], 0, []
+    for gi in range(ngroups):
+        g = []
+        for tr in range(rnd.randint(1, 3)):
+            for _ in range(rnd.choice([1, 2, 2, 3])):
+                i, kd = rnd.randrange(nlines), rnd.choice(MEMBER_KINDS)
+                k += 1
+                g.append(member(src, pos, i, kd, k) + (rnd.choice([tr, tr, None]),))
+                kinds.append(f"{kd}@{i}")
+        rnd.shuffle(g)
+        groups.append(g)
+    c = {"source": src, "ilines": il, "groups": groups, "nlines": nlines, "ignored": list(ig),
+         "family": "veto-random", "kinds": kinds}
+    if sm:
+        c["strmark"] = list(sm)
+    return c
+
+
+# replacement texts on which ast.parse raises something else than SyntaxError
+CRASH_TEXTS = {"deep-unary": "-" * 3000 + "1", "lone-surrogate": "'\ud800'"}
+
+
+def crash_family():
+    for name, text in CRASH_TEXTS.items():
+        for extra in (False, True):
+            src, pos, il = make_source(2, ())
+            g = [(pos[1], pos[1] + 2, text, None)]
+            if extra:
+                g.append((pos[0], pos[0] + 2, "m1", None))
+            yield {"source": src, "ilines": il, "groups": [g], "nlines": 2, "ignored": [], "family": "crash",
+                   "kinds": [name]}
 
 
 def exhaustive_pairs(nlines: int, ignored_opts):
@@ -126,24 +239,53 @@ def run_impl(mods, case):
                     yield (target, text, tr)
         rule.__name__ = f"rule{gi}"
         funcs.append((rule, [source], {}))
+    trace: dict = {}
+    last = [source]
+    real_do = processing._do_rewrite
+
+    def spy(src, rewrite, **kw):
+        res = real_do(src, rewrite, **kw)
+        rng = processing._get_charnos(rewrite, src)
+        code = src[rng.start:rng.end]
+        trace[id(rewrite)] = "applied" if res != src else ("noop" if rewrite.new == code else "veto")
+        last[0] = res
+        return res
+
     with common.quiet():
         sched = processing._schedule_rewrites(source, funcs)
         flat = [(t.group_number, t.transaction_number, rng.start, rng.end, rw.new) for t, (rng, rw) in sched]
         mode = case.get("restore")
-        if mode is None:
+        saved = processing._substitute_original_fstrings
+        processing._do_rewrite = spy
+        try:
+            if mode is not None:
+                # fault injection into the string-restoration step that runs between the two validity tests
+                # (T10.5 is stated for every `restore` function): "tag" appends a marker line, "break" makes the
+                # text unparsable -> the pass must hand back the source
+                processing._substitute_original_fstrings = (
+                    (lambda o, n: n + "restored\n") if mode == "tag" else (lambda o, n: n + "(\n"))
             out = processing._apply_rewrites(source, sched)
-        else:
-            # fault injection into the string-restoration step that runs between the two validity tests
-            # (T10.5 is stated for every `restore` function): "tag" appends a marker line, "break" makes the
-            # text unparsable -> the pass must hand back the source
-            saved = processing._substitute_original_fstrings
-            processing._substitute_original_fstrings = (
-                (lambda o, n: n + "restored\n") if mode == "tag" else (lambda o, n: n + "(\n"))
-            try:
-                out = processing._apply_rewrites(source, sched)
-            finally:
-                processing._substitute_original_fstrings = saved
-    return flat, out
+        finally:
+            processing._do_rewrite = real_do
+            processing._substitute_original_fstrings = saved
+    # per scheduled rewrite: applied / noop (new text == old text) / veto (_do_rewrite handed the text back) /
+    # refused (the application step never offered it to _do_rewrite)
+    status = [trace.get(id(rw)) or ("noop" if rw.new == source[rng.start:rng.end] else "refused")
+              for _, (rng, rw) in sched]
+    return flat, out, status, last[0]
+
+
+def impl_line_verdicts(mods, source: str) -> list[tuple[int, int]]:
+    """has_ignore_comment's own verdict for every physical line (only used as the model's `ilines` input in the
+    marker-inside-a-string family, where the regex reading and the comment-token reading differ)."""
+    core = mods["core"]
+    res, p = [], 0
+    for ln in source.splitlines(keepends=True):
+        r = (p, p + len(ln))
+        p += len(ln)
+        if core.has_ignore_comment(source, core.Range(*r)):
+            res.append(r)
+    return res
 
 
 def py_splice(source, flat):
@@ -170,11 +312,35 @@ def overlaps(a, b):
     return a[0] < b[1] and b[0] < a[1]
 
 
-def property_oracle(case, flat, out) -> list[str]:
+_TOK_CACHE: dict = {}
+
+
+def tok_ilines(source: str):
+    if source not in _TOK_CACHE:
+        if len(_TOK_CACHE) > 20000:
+            _TOK_CACHE.clear()
+        _TOK_CACHE[source] = comment_ignored_lines(source)
+    return _TOK_CACHE[source]
+
+
+def ws_only_change(code: str, new: str) -> bool:
+    """The tool's notion of a whitespace-only change (used by the sig predicate of F10-3 only)."""
+    return new != code and ([l.rstrip() for l in new.splitlines() if l.strip()]
+                            == [l.rstrip() for l in code.splitlines() if l.strip()])
+
+
+def property_oracle(case, flat, out, status=None) -> list[dict]:
     """Independent of the model AND of how default transaction numbers are chosen: transactions are
     identified by the yield structure (explicit number -> one transaction per (group, number); no number -> a
-    transaction of its own), applied rewrites are matched to them by (group, range, text)."""
-    problems = []
+    transaction of its own), applied rewrites are matched to them by (group, range, text).
+    `status` = what the application step did with every scheduled rewrite (see run_impl)."""
+    problems: list[dict] = []
+
+    def problem(kind, text, **kw):
+        problems.append(dict(kind=kind, text=text, **kw))
+
+    if status is None:
+        status = ["applied"] * len(flat)
     tx: dict = {}
     order = []
     for gi, g in enumerate(case["groups"]):
@@ -190,50 +356,144 @@ def property_oracle(case, flat, out) -> list[str]:
     for i in range(len(flat)):
         for j in range(i + 1, len(flat)):
             if overlaps(flat[i][2:4], flat[j][2:4]):
-                problems.append(f"overlapping applied rewrites {flat[i]} {flat[j]}")
+                problem("overlap", f"overlapping applied rewrites {flat[i]} {flat[j]}")
     # every applied rewrite was yielded by its group
     for g, items in applied_by_group.items():
         yielded = [it for k in tx if k[1] == g for it in tx[k]]
         for it in items:
             if it not in yielded:
-                problems.append(f"applied rewrite {it} of group {g} was never yielded")
-    # (a) atomicity + (c) justified drops
-    status = {}
+                problem("not-yielded", f"applied rewrite {it} of group {g} was never yielded")
+    # (a) atomicity + (c) justified drops -- scheduling
+    ilines = tok_ilines(case["source"])
+    st = {}
     for key in order:
         items = sorted(set(tx[key]))
         app = applied_by_group.get(key[1], [])
         present = [it for it in items if it in app]
-        status[key] = "all" if len(present) == len(items) else ("none" if not present else "partial")
+        st[key] = "all" if len(present) == len(items) else ("none" if not present else "partial")
     for key in order:
         items = sorted(set(tx[key]))
-        if status[key] == "partial":
+        if st[key] == "partial":
             # a rewrite may also be present because an identical rewrite of ANOTHER transaction of the same group
             # was applied; only report when no such explanation exists
-            others = [it for k in order if k != key and k[1] == key[1] and status[k] == "all" for it in tx[k]]
+            others = [it for k in order if k != key and k[1] == key[1] and st[k] == "all" for it in tx[k]]
             missing = [it for it in items if it not in applied_by_group.get(key[1], [])]
             extra = [it for it in items if it in applied_by_group.get(key[1], []) and it not in others]
             if missing and extra:
-                problems.append(f"transaction {key} applied partially: applied {extra}, missing {missing}")
+                problem("partial", f"transaction {key} scheduled partially: scheduled {extra}, missing {missing}")
             continue
-        if status[key] == "all":
+        if st[key] == "all":
             continue
         rs = [r for r, _ in items]
         self_ov = any(overlaps(rs[i], rs[j]) for i in range(len(rs)) for j in range(i + 1, len(rs)))
         dup = any(k2 != key and k2[1] <= key[1] and sorted(set(tx[k2])) == items for k2 in order)
         sched_ov = any(overlaps(r, (f[2], f[3])) for r in rs for f in flat if f[0] <= key[1])
-        ign = any(overlaps(r, l) for r in rs for l in map(tuple, case["ilines"]))
+        ign = any(overlaps(r, l) for r in rs for l in ilines)
         if not (self_ov or dup or sched_ov or ign):
-            problems.append(f"transaction {key} dropped without a stated reason: {tx[key]}")
+            problem("dropped", f"transaction {key} dropped without a stated reason: {tx[key]}",
+                    ranges=[list(r) for r in rs])
+    # (a) atomicity -- application step: the members of a scheduled transaction are spliced all together or not
+    # at all (a member whose new text equals the old text is neutral)
+    by_tx: dict = {}
+    for f, stt in zip(flat, status):
+        by_tx.setdefault((f[0], f[1]), []).append((f, stt))
+    for key, ms in by_tx.items():
+        done = [f for f, stt in ms if stt == "applied"]
+        lost = [(f, stt) for f, stt in ms if stt in ("veto", "refused")]
+        if done and lost:
+            problem("torn", f"scheduled transaction {key} applied in part: spliced {done}, not spliced {lost}",
+                    key=list(key))
+        elif lost:
+            problem("refused", f"scheduled transaction {key} not applied although it was scheduled: {lost}",
+                    key=list(key), members=[list(f) for f, _ in lost])
+    # a transaction that touches an ignored line is dropped (T10.3 is an equivalence): no spliced rewrite overlaps a
+    # line whose COMMENT token carries the marker
+    for f, stt in zip(flat, status):
+        if stt == "applied" and any(overlaps((f[2], f[3]), l) for l in ilines):
+            problem("ignored-touched", f"rewrite {f} was applied although it touches an ignored line")
     # (d)+(e) text: splice of the applied rewrites, or untouched source when that does not parse
-    cand = py_splice(case["source"], flat)
+    cand = py_splice(case["source"], [f for f, stt in zip(flat, status) if stt in ("applied", "noop")])
     want = cand if py_valid(cand) else case["source"]
     if py_valid(cand) and case.get("restore") == "tag":
         want = cand + "restored\n"
     elif case.get("restore") == "break":
         want = case["source"]
     if out != want:
-        problems.append(f"pass output differs from the spliced/rolled-back text: {out!r} vs {want!r}")
+        problem("text", f"pass output differs from the spliced/rolled-back text: {out!r} vs {want!r}")
     return problems
+
+
+# ------------------------------------------------------------------------------------------------
+# known findings: a failing case is suppressed only when EVERY problem of the case is explained by the
+# structural predicate of a listed finding whose `site` is the site the problem is attributed to
+
+PROBLEM_SITE = {"torn": "processing._apply_rewrites", "refused": "processing._apply_rewrites",
+                "dropped": "core.has_ignore_comment", "ignored-touched": "processing._schedule_rewrites"}
+PARSE_RAISES = ("RecursionError", "UnicodeEncodeError", "UnicodeDecodeError", "MemoryError", "ValueError")
+
+
+def _sig_ws_only_transaction(case, flat, status, prob) -> bool:
+    """F10-3: a scheduled transaction with a member that is a whitespace-only change is refused as a whole."""
+    if prob["kind"] != "refused":
+        return False
+    src = case["source"]
+    return any(ws_only_change(src[s:e], new) for (_, _, s, e, new) in prob["members"])
+
+
+def _sig_marker_in_string(case, flat, status, prob) -> bool:
+    """F10-4: the dropped transaction touches a line whose raw text matches the marker regex although no comment
+    token carries it."""
+    if prob["kind"] != "dropped":
+        return False
+    src = case["source"]
+    p, raw = 0, []
+    for ln in src.splitlines(keepends=True):
+        if IGNORE_RE.search(ln):
+            raw.append((p, p + len(ln)))
+        p += len(ln)
+    tok = tok_ilines(src)
+    return any(overlaps(tuple(r), l) for r in prob["ranges"] for l in raw if l not in tok)
+
+
+def _sig_parse_raises(case, flat, status, prob) -> bool:
+    """F10-5: ast.parse inside core.is_valid_python raised something else than SyntaxError."""
+    return prob["kind"] == "crash" and prob.get("exc") in PARSE_RAISES and prob.get("site") == "core.is_valid_python"
+
+
+SIGS = {"ws_only_transaction": _sig_ws_only_transaction, "marker_in_string": _sig_marker_in_string,
+        "parse_raises_non_syntaxerror": _sig_parse_raises}
+
+
+def match_findings(findings, case, flat, status, problems):
+    """The findings that explain ALL problems of the case, or None."""
+    used = []
+    for prob in problems:
+        site = prob.get("site") or PROBLEM_SITE.get(prob["kind"])
+        hit = None
+        for f in findings:
+            if f.kind != "finding" or f.fields.get("site") != site:
+                continue
+            pred = SIGS.get(f.fields.get("sig", ""))
+            try:
+                if pred and pred(case, flat, status, prob):
+                    hit = f
+                    break
+            except Exception:  # a predicate that cannot be evaluated never suppresses
+                continue
+        if hit is None:
+            return None
+        used.append(hit)
+    return used
+
+
+def crash_problem(e: BaseException) -> dict:
+    """The innermost pyrefact frame of the traceback names the site."""
+    site = None
+    for fr in traceback.extract_tb(e.__traceback__):
+        if "/pyrefact/" in fr.filename:
+            site = f"{Path(fr.filename).stem}.{fr.name}"
+    return {"kind": "crash", "exc": type(e).__name__, "site": site,
+            "text": f"the pass raised {type(e).__name__}: {str(e)[:200]} (innermost pyrefact frame: {site})"}
 
 
 # ------------------------------------------------------------------------------------------------
@@ -248,17 +508,24 @@ def g_case(case, flat, cand) -> str:
     groups = glist(
         [glist([f"({g_range((s, e))}, {gtext(t)}, {gopt(tr, gz)})" for (s, e, t, tr) in g]) for g in case["groups"]])
     exp = glist([f"({gz(g)}, {gz(t)}, {gz(s)}, {gz(e)}, {gtext(n)})" for (g, t, s, e, n) in flat])
-    return (f"(mkCase {glist([g_range(r) for r in case['ilines']])} {groups} {exp} "
+    return (f"(mkCase {glist([g_range(r) for r in case.get('ilines_model', case['ilines'])])} {groups} {exp} "
             f"{gtext(case['source'])} {gtext(cand)})")
+
+
+# which model of the application step the correspondence uses: "tx" = the repaired code (a transaction with a
+# whitespace-only member is refused as a whole, no ignore re-check), "v0" = the code before the repair (per-member
+# refusals inside _do_rewrite); C10_APPLY_MODEL=v0 is only for replaying the hunt items on an unrepaired tree
+import os
+APPLY_MODEL = os.environ.get("C10_APPLY_MODEL", "tx")
 
 
 def write_case_file(path: Path, items) -> None:
     body = ";\n  ".join(g_case(c, f, cand) for (c, f, cand) in items)
     path.write_text(
         "From Coq Require Import List ZArith.\nImport ListNotations.\nOpen Scope Z_scope.\n"
-        "Require Import Pyrefact.SchedModel.\n"
+        "Require Import Pyrefact.SchedModel Pyrefact.SchedApplyModel.\n"
         f"Definition cases : list sched_case := [\n  {body}\n].\n"
-        "Eval vm_compute in (bad_indices case_ok cases).\n")
+        f"Eval vm_compute in (bad_indices case_ok_{APPLY_MODEL} cases).\n")
 
 
 def model_outputs(wd: Path, case, flat, cand) -> str:
@@ -266,9 +533,11 @@ def model_outputs(wd: Path, case, flat, cand) -> str:
     p = wd / "replay_case.v"
     p.write_text(
         "From Coq Require Import List ZArith.\nImport ListNotations.\nOpen Scope Z_scope.\n"
-        "Require Import Pyrefact.SchedModel.\n"
+        "Require Import Pyrefact.SchedModel Pyrefact.SchedApplyModel.\n"
         f"Definition c : sched_case := {g_case(case, flat, cand)}.\n"
-        "Eval vm_compute in (model_schedule c).\nEval vm_compute in (model_candidate c).\n")
+        "Eval vm_compute in (model_schedule c).\nEval vm_compute in (model_candidate_tx c).\n"
+        "Eval vm_compute in (model_candidate_v0 c).\n"
+        "Eval vm_compute in (outcomes_v0 (c_src c) (schedule_text (c_ilines c) (c_groups c))).\n")
     rc, out = common.coqc(p)
     return out[-4000:]
 
@@ -320,6 +589,7 @@ def check(run: common.Run):
     ps = common.proof_step(run, PID, wd)
     mods = common.import_impl()
     rnd = random.Random(run.seed)
+    findings = common.load_findings(PID)
 
     cases = []
     if run.tier == "quick":
@@ -328,14 +598,24 @@ def check(run: common.Run):
     else:
         cases += list(exhaustive_pairs(5, [(), (1,), (0,), (4,)]))
         nrand = 60000
+    # the application step: every transaction of <=2 members over the member kinds (token/line replacement,
+    # deletion, insertion, four whitespace-only shapes, line joins) x ignored line; marker inside a string
+    veto = list(veto_family(3, [(), (0,), (1,), (2,)]))
+    veto += list(veto_family(2, [()], [(0,), (1,)]))
+    if run.tier != "quick":
+        veto += list(veto_family(4, [(), (1,), (3,)]))
+    cases += veto
+    cases += list(crash_family())
     n_exh = len(cases)
     for _ in range(nrand):
         cases.append(random_case(rnd))
+    for _ in range(600 if run.tier == "quick" else 8000):
+        cases.append(random_veto_case(rnd))
     for _ in range(150 if run.tier == "quick" else 2000):
         c = random_case(rnd, bad_p=0.0)
         c["restore"] = rnd.choice(["tag", "break"])
         cases.append(c)
-    # corpus of minimised past disagreements first
+    # corpus of minimised past disagreements / hunt witnesses first
     corpus = []
     for p in sorted((common.VERIF / "corpus" / "sched").glob("*.json")):
         corpus.append(json.loads(p.read_text()))
@@ -344,19 +624,24 @@ def check(run: common.Run):
     items, oracle_fail, hist = [], [], Counter()
     distinct = set()
     for c in cases:
+        c["groups"] = [[tuple(x) for x in g] for g in c["groups"]]
+        if c.get("strmark"):
+            c["ilines_model"] = impl_line_verdicts(mods, c["source"])
         try:
-            flat, out = run_impl(mods, c)
-        except Exception as e:  # the scheduler itself crashed
-            oracle_fail.append((c, None, None, [f"scheduler raised {type(e).__name__}: {e}"]))
+            flat, out, status, cand = run_impl(mods, c)
+        except Exception as e:  # the pass itself crashed
+            oracle_fail.append((c, None, None, None, [crash_problem(e)]))
+            hist["crashed"] += 1
             continue
-        cand = py_splice(c["source"], flat)
-        probs = property_oracle(c, flat, out)
+        probs = property_oracle(c, flat, out, status)
         if probs:
-            oracle_fail.append((c, flat, out, probs))
+            oracle_fail.append((c, flat, out, status, probs))
         items.append((c, flat, cand))
         nt = sum(len(g) for g in c["groups"])
         hist[f"rewrites={nt}"] += 1
         hist[f"scheduled={len(flat)}"] += 1
+        for stt in status:
+            hist[f"member-{stt}"] += 1
         if nontrivial(c, flat):
             distinct.add(json.dumps([c["groups"], c["ilines"]], sort_keys=True))
 
@@ -383,23 +668,40 @@ def check(run: common.Run):
 
     # ---- verdicts
     reported = set()
-    for (c, flat, out, probs) in oracle_fail[:5]:
+    known: dict = {}
+    n_viol = 0
+    for (c, flat, out, status, probs) in oracle_fail:
+        used = match_findings(findings, c, flat, status, probs)
+        if used is not None:
+            for f in used:
+                known.setdefault(f.id, [f, 0])[1] += 1
+            reported.add(json.dumps(c, sort_keys=True, default=str))
+            continue
+        n_viol += 1
+        if n_viol > 6:
+            continue
+        site = sorted({p.get("site") or PROBLEM_SITE.get(p["kind"], "processing._schedule_rewrites/_apply_rewrites")
+                       for p in probs})
         run.violation({"kind": "property-oracle", "case": c, "impl_schedule": flat, "impl_output": out,
-                       "problems": probs,
-                       "explanation": "the real scheduler's result violates C10 on this synthetic rule set"}, True)
-        reported.add(json.dumps(c, sort_keys=True))
+                       "member_status": status, "problems": probs, "site": site,
+                       "explanation": "the real scheduler / application step violates C10 on this synthetic rule "
+                                      "set"}, True)
+        reported.add(json.dumps(c, sort_keys=True, default=str))
+    for fid, (f, n) in sorted(known.items()):
+        run.known_finding(fid, f"site={f.fields.get('site')} sig={f.fields.get('sig')} cases={n}")
     for (err, item) in disagreements[:5]:
         if err is not None:
             run.violation(dict(err, explanation="correspondence K1 could not be evaluated"), False)
             continue
         c, flat, cand = item
-        if json.dumps(c, sort_keys=True) in reported:
+        if json.dumps(c, sort_keys=True, default=str) in reported:
             continue
         mo = model_outputs(wd, c, flat, cand)
-        run.violation({"kind": "correspondence", "kernel": "K1 SchedModel.schedule / apply_all",
-                       "case": c, "impl_schedule": flat, "impl_candidate": cand, "model": mo,
-                       "explanation": "model and implementation disagree on this case; the property oracle "
-                                      "found no violated clause on the explored inputs"}, False)
+        run.violation({"kind": "correspondence", "kernel": "K1 SchedModel.schedule / SchedApplyModel.apply_" +
+                       APPLY_MODEL, "case": c, "impl_schedule": flat, "impl_candidate": cand, "model": mo,
+                       "explanation": "model and implementation disagree on this case (schedule, or the text "
+                                      "before the validity test); the property oracle found no violated clause on "
+                                      "the explored inputs"}, False)
     for b in loop_bad[:3]:
         run.violation({"kind": "correspondence", "kernel": "K1 SchedModel.fix_loop", "case": b,
                        "explanation": "fix/chain history loop differs from the model"}, False)
@@ -413,23 +715,35 @@ def check(run: common.Run):
         distinct_nontrivial=len(distinct),
         rule=("correspondence cases = synthetic sources of distinct one-token lines + synthetic rule groups "
               "yielding (Range, marker text[, transaction]); exhaustive: all pairs of line-aligned ranges x "
-              "same/different text x 6 transaction numberings x 3 group splits x ignored-line options; plus "
-              "seeded random cases (<=8 rewrites, <=8 lines, <=3 groups, invalid replacement text with p=0.08); "
-              "plus all f:4->4 x 4 starts for the fix/chain loop. Non-trivial = >=2 rewrites and >=1 drop "
-              "event; distinct by (groups, ignored lines)."),
+              "same/different text x 6 transaction numberings x 3 group splits x ignored-line options; the "
+              "application-step family: every transaction of 1 or 2 members over 9 member kinds (token / line "
+              "replacement, deletion, insertion, trailing blanks, line with trailing blanks, blank line, removed "
+              "line break, line break -> '; ') x every line x ignored line / marker inside a string literal; "
+              "replacement texts on which ast.parse raises RecursionError / UnicodeEncodeError; plus "
+              "seeded random cases (<=8 rewrites, <=8 lines, <=3 groups, invalid replacement text with p=0.08) "
+              "and seeded random application-step cases (<=2 groups x <=3 transactions x <=3 members); "
+              "plus all f:4->4 x 4 starts for the fix/chain loop. The model is compared on the schedule AND on "
+              "the text the implementation holds before the validity test. Non-trivial = >=2 rewrites and >=1 "
+              "drop event; distinct by (groups, ignored lines)."),
         samples=[{"groups": c["groups"], "ilines": c["ilines"], "impl_schedule": f} for (c, f, _) in
                  (items[:1] + items[n_exh // 2:n_exh // 2 + 1] + items[-2:])],
-        exhaustive_part=n_exh, random_part=nrand, corpus_part=len(corpus), loop_cases=n_loop,
+        exhaustive_part=n_exh, veto_family=len(veto), random_part=nrand, corpus_part=len(corpus),
+        loop_cases=n_loop, apply_model=APPLY_MODEL,
         exhaustive=False, histogram=dict(hist),
         correspondence_disagreements=len(disagreements) + len(loop_bad),
-        property_oracle_failures=len(oracle_fail),
+        property_oracle_failures=len(oracle_fail), property_oracle_failures_unexplained=n_viol,
         trusted_base=common.TRUSTED_BASE_COMMON + [
             "_do_rewrite's indentation/pass/parenthesis candidates and minimize_whitespace_line_differences are "
-            "modelled as a pure splice (validated by the text comparison on every case, not proved)",
-            "group_name omitted from the transaction key (function of the group number)"],
+            "modelled as a pure splice (validated by comparing the implementation's text before the validity test "
+            "with the model's on every case, not proved)",
+            "group_name omitted from the transaction key (function of the group number)",
+            "the ignored-line ranges handed to the model are computed by the harness with the marker regex over "
+            "str.splitlines (has_ignore_comment's own reading; IgnoreModel.v / C20 validate it); the oracle uses "
+            "COMMENT tokens"],
     )
     run.assumptions += [
-        "the theorems are about SchedModel.v; the tie to processing.py is the exact correspondence above",
+        "the theorems are about SchedModel.v / SchedApplyModel.v; the tie to processing.py is the exact "
+        "correspondence above",
         "replacement targets given as AST nodes / None are converted by core.get_charnos (covered by C13)"]
 
 
@@ -437,16 +751,24 @@ def replay(path: str) -> int:
     data = json.loads(Path(path).read_text())
     mods = common.import_impl()
     wd = common.workdir(PID + "-replay")
-    print(json.dumps({k: data[k] for k in data if k in ("kind", "explanation", "kernel")}, indent=1))
+    print(json.dumps({k: data[k] for k in data if k in ("kind", "explanation", "kernel", "site")}, indent=1))
     if data.get("kind") in ("property-oracle", "correspondence") and isinstance(data.get("case"), dict) \
             and "groups" in data["case"]:
         c = data["case"]
         c["groups"] = [[tuple(x) for x in g] for g in c["groups"]]
-        flat, out = run_impl(mods, c)
+        if c.get("strmark"):
+            c["ilines_model"] = impl_line_verdicts(mods, c["source"])
+        try:
+            flat, out, status, cand = run_impl(mods, c)
+        except Exception as e:
+            print("the pass raised:", crash_problem(e)["text"])
+            return 0
         print("impl schedule:", flat)
+        print("member status:", status)
+        print("impl candidate:", repr(cand))
         print("impl output  :", repr(out))
-        print("oracle       :", property_oracle(c, flat, out) or "all clauses hold")
-        print("model        :", model_outputs(wd, c, flat, py_splice(c["source"], flat)))
+        print("oracle       :", [p["text"] for p in property_oracle(c, flat, out, status)] or "all clauses hold")
+        print("model        :", model_outputs(wd, c, flat, cand))
     elif data.get("kind") == "proof":
         print(common.check_props(PID, wd))
     return 0
